@@ -45,6 +45,9 @@ MAP_OPS = [
 ]  # fmt: skip
 
 
+_NEW_FOLDERS: list = []
+
+
 def digest(folder: str) -> dict:
     d = {}
     for root, _, files in os.walk(folder):
@@ -66,7 +69,15 @@ def expect_rejection(out: Outcome, op: str, log, fn, folder=None, before=None):
             after = digest(folder)
             changed = sorted(k for k in set(before) | set(after) if before.get(k) != after.get(k))
             out.fail(f"{op}-altered-run-folder", f"changed: {changed}")
+        while _NEW_FOLDERS:  # a rejected map into a folder that did not exist yet must not have started to fill it
+            nf = _NEW_FOLDERS.pop()
+            left = digest(nf)
+            boot.rm(nf)
+            if left:
+                out.fail(f"{op}-altered-run-folder", f"a new run folder opened with cleanup=False gained {sorted(left)[:6]}")
         return
+    while _NEW_FOLDERS:
+        boot.rm(_NEW_FOLDERS.pop())
     out.fail(f"{op}-accepted", "no exception" + (f"; calls {log!r}"[:200] if log else ""))
 
 
@@ -154,6 +165,27 @@ def body_dag(data) -> Outcome:
         for f in users:
             f["sig_defaults"].pop(r, None)
             f["pf_defaults"].pop(r, None)
+        if (pick >> 3) % 2:
+            # the inconsistency arrives later, through the handle of a function of an already valid pipeline; the
+            # next call / map must refuse before running anything
+            users[0]["pf_defaults"][r] = "D1"
+            users[1]["pf_defaults"][r] = "D1"
+            try:
+                pl = build_mut(p2)
+                pl[users[1]["outs"][0]].update_defaults({r: "D2"})
+            except Exception:
+                out.labels = [op + "-late:rejected-at-the-update"]  # refusing right away is fine as well
+                return out
+            out.labels = [op + "-late"]
+            m2 = DagModel(p2)
+            target = users[(pick >> 4) % 2]["outs"][0]
+            kw = {x: f"V{x}" for x in m2.needed_roots(target) if x != r}
+            if (pick >> 5) % 2:
+                expect_rejection(out, op + "-late-call", log, lambda: pl(target, **kw))
+            else:
+                allroots = {x: f"V{x}" for x in m2.needed_roots(tuple(m2.all_outputs())) if x != r}
+                expect_rejection(out, op + "-late-map", log, lambda: pl.map(allroots, parallel=False, storage="dict"))
+            return out
         users[0]["sig_defaults" if pick % 2 else "pf_defaults"][r] = "D1"
         users[1]["sig_defaults" if (pick // 2) % 2 else "pf_defaults"][r] = "D2"
         expect_rejection(out, op, log, lambda: build_mut(p2))
@@ -224,6 +256,10 @@ def body_map(data) -> Outcome:
                 # a structurally different pipeline would be refused anyway because it does not match the previous
                 # run in the folder; to test the *validation* it goes into a fresh folder instead
                 args.update(run_folder=boot.fresh_path("c12new"), cleanup=True)
+            elif (pick >> 7) % 2:
+                # the same request into a run folder that does not exist yet (still cleanup=False)
+                _NEW_FOLDERS.append(boot.fresh_path("c12fresh"))
+                args.update(run_folder=_NEW_FOLDERS[-1])
             args.update(kw)
             try:
                 p.map(inputs if inputs2 is None else inputs2, **args)
@@ -481,7 +517,7 @@ def campaigns(tier):
                 "pick": st.integers(0, 2**16 - 1),
             }
         )
-        camps.append(Campaign(f"dag:{op}", body_dag, strat, quick=1200 // nd, thorough=32000 // nd, shards_quick=1,
+        camps.append(Campaign(f"dag:{op}", body_dag, strat, quick=3200 // nd, thorough=48000 // nd, shards_quick=1,
                               shards_thorough=2, describe=f"DAG programs x operator {op}"))
     for op in MAP_OPS:
         strat = st.fixed_dictionaries(
@@ -491,7 +527,7 @@ def campaigns(tier):
                 "pick": st.integers(0, 2**16 - 1),
             }
         )
-        camps.append(Campaign(f"map:{op}", body_map, strat, quick=1360 // nm, thorough=34000 // nm, shards_quick=1,
+        camps.append(Campaign(f"map:{op}", body_map, strat, quick=2700 // nm, thorough=45000 // nm, shards_quick=1,
                               shards_thorough=2, describe=f"MapPrograms x operator {op} into an existing folder"))
     return camps
 
